@@ -568,6 +568,14 @@ impl Pool for PoolImpl {
             .handle_finalization(finalization_event);
         self.send_parent_ready_events(new_parents_ready).await;
 
+        // learning the parent may have decided (and pruned) a prefix of slots in the
+        // finality tracker; drop the pool's own state for them as well, and do not
+        // re-create state for a block in an already decided slot
+        self.prune();
+        if *slot < self.first_unpruned_slot() {
+            return;
+        }
+
         self.slot_state(*slot).notify_parent_known(block_hash);
         if let Some(parent_state) = self.slot_states.get(parent_slot)
             && parent_state.is_notar_fallback_or_stronger(parent_hash)
